@@ -701,6 +701,7 @@ fn export<'tcx>(tcx: TyCtxt<'tcx>, name: &str) -> String {
     let mut adts = Vec::new();
     let mut impls = Vec::new();
     let mut fns_no_body = Vec::new();
+    let mut traits = Vec::new();
     for ld in tcx.hir_crate_items(()).definitions() {
         let did = ld.to_def_id();
         match tcx.def_kind(did) {
@@ -758,6 +759,24 @@ fn export<'tcx>(tcx: TyCtxt<'tcx>, name: &str) -> String {
                 im.set("items", J::Arr(items));
                 impls.push(im);
             }
+            DefKind::Trait => {
+                let mut tj = J::obj();
+                tj.set("path", J::Str(tcx.def_path_str(did)));
+                let mut sup = Vec::new();
+                for (clause, _) in tcx.explicit_super_predicates_of(did).iter_identity_copied().map(|x| x.skip_norm_wip()) {
+                    sup.push(J::Str(format!("{}", clause)));
+                }
+                tj.set("super", J::Arr(sup));
+                let mut items = Vec::new();
+                for it in tcx.associated_items(did).in_definition_order() {
+                    items.push(J::Arr(vec![
+                        J::Str(it.name().to_string()),
+                        J::Bool(it.defaultness(tcx).has_value()),
+                    ]));
+                }
+                tj.set("items", J::Arr(items));
+                traits.push(tj);
+            }
             DefKind::Fn | DefKind::AssocFn => {
                 if !tcx.is_mir_available(did) {
                     fns_no_body.push(J::Str(tcx.def_path_str(did)));
@@ -769,6 +788,7 @@ fn export<'tcx>(tcx: TyCtxt<'tcx>, name: &str) -> String {
     doc.set("adts", J::Arr(adts));
     doc.set("impls", J::Arr(impls));
     doc.set("fns_no_body", J::Arr(fns_no_body));
+    doc.set("traits", J::Arr(traits));
 
     let mut bodies = Vec::new();
     let (mut nb, mut nblocks, mut nstmts) = (0usize, 0usize, 0usize);
